@@ -615,6 +615,8 @@ type absEngine struct {
 	steps    int
 	dbgState *nst
 	inlineMemo map[string]*nst
+	memoCases  map[string][]retCase // per memo key: the return states by nil-ness of the error result
+	retCases   map[string][]retCase // per frame ctx + call: the cases of the last analysis of that call
 	structFields map[string][]string // struct type name -> tracked int field paths
 }
 
@@ -624,6 +626,12 @@ type frame struct {
 	rec  bool // recording obligations
 	rets []*retState
 	retNames map[string]bool // names of the integer values the function may return (lazily computed)
+}
+
+// retCase: one return state of an inlined callee, with what is known of its last (error) result: 1 nil, 0 non-nil, -1 unknown.
+type retCase struct {
+	errNil int8
+	st     *nst
 }
 
 type retState struct {
@@ -1288,6 +1296,10 @@ func (e *absEngine) inline(fr *frame, st *nst, call *ssa.Call, g *ssa.Function) 
 	if !fr.rec {
 		memoKey = sub.ctx + "|" + entry.fingerprint()
 		if out, ok := e.inlineMemo[memoKey]; ok {
+			if e.retCases == nil {
+				e.retCases = map[string][]retCase{}
+			}
+			e.retCases[fr.ctx+":"+call.Name()] = e.memoCases[memoKey]
 			if out == nil {
 				st.z.bottom = true
 			} else {
@@ -1300,6 +1312,7 @@ func (e *absEngine) inline(fr *frame, st *nst, call *ssa.Call, g *ssa.Function) 
 	e.runFunc(sub, entry)
 	// join the return states, binding results
 	var out *nst
+	var cases []retCase
 	for _, r := range sub.rets {
 		rs := r.st
 		for i, rv := range r.vals {
@@ -1387,13 +1400,45 @@ func (e *absEngine) inline(fr *frame, st *nst, call *ssa.Call, g *ssa.Function) 
 		for _, nm := range dead {
 			rs.drop(nm)
 		}
+		// remember this return by the nil-ness of its error result, for `if err != nil` right after the call
+		if n := len(r.vals); n > 0 {
+			last := r.vals[n-1]
+			if isPointerLike(last.Type()) || types.IsInterface(last.Type()) {
+				en := int8(-1)
+				lv := stripConv(last)
+				switch x := lv.(type) {
+				case *ssa.Const:
+					if x.Value == nil {
+						en = 1
+					}
+				case *ssa.MakeInterface, *ssa.Alloc:
+					en = 0
+				case *ssa.Extract:
+					// the error of a constructor of the package that always fails (makeError)
+					if c2, ok := x.Tuple.(*ssa.Call); ok {
+						if g2 := c2.Call.StaticCallee(); g2 != nil && alwaysErrors(g2) {
+							en = 0
+						}
+					}
+				}
+				cases = append(cases, retCase{en, rs.clone()})
+			}
+		}
 		if out == nil {
 			out = rs
 		} else {
 			out = joinNst(out, rs, false)
 		}
 	}
+	if e.retCases == nil {
+		e.retCases = map[string][]retCase{}
+	}
+	e.retCases[fr.ctx+":"+call.Name()] = cases
 	if memoKey != "" {
+		if e.memoCases == nil {
+			e.memoCases = map[string][]retCase{}
+		}
+		e.memoCases[memoKey] = cases
 		if e.inlineMemo == nil {
 			e.inlineMemo = map[string]*nst{}
 		}
@@ -1461,6 +1506,12 @@ func (e *absEngine) runFunc(fr *frame, entry *nst) {
 	edgeOut := func(b *ssa.BasicBlock, st *nst, succIdx int) *nst {
 		o := st.clone()
 		if ifi, ok := b.Instrs[len(b.Instrs)-1].(*ssa.If); ok && len(b.Succs) == 2 {
+			if o2, ok := e.errCaseSplit(fr, b, ifi, succIdx == 0); ok {
+				if o2 == nil {
+					return nil
+				}
+				o = o2
+			}
 			e.refine(fr, o, ifi.Cond, succIdx == 0)
 		}
 		if o.isBottom() {
@@ -2017,4 +2068,98 @@ func containsStr(xs []string, x string) bool {
 		}
 	}
 	return false
+}
+
+// alwaysErrors: every return of g yields a non-nil last result (a constructor of errors such as makeError).
+func alwaysErrors(g *ssa.Function) bool {
+	rets := returnsOf(g)
+	if len(rets) == 0 {
+		return false
+	}
+	for _, ret := range rets {
+		rv := returnValues(ret)
+		if len(rv) == 0 {
+			return false
+		}
+		switch stripConv(rv[len(rv)-1]).(type) {
+		case *ssa.MakeInterface, *ssa.Alloc, *ssa.Call:
+			// a freshly made error value (Call: gqlerror.ErrorLocf and the like return a new *Error)
+		default:
+			return false
+		}
+	}
+	return true
+}
+
+// errCaseSplit: the block ends in `if err ==/!= nil` where err is the last result of a call of the package made in
+// this very block with nothing but result extraction after it. The state on the chosen edge is then the join of the
+// callee's return states whose error result agrees with the edge (instead of the join of all of them), with the
+// extractions replayed. ok=false when the shape is not this one; (nil, true) when no return agrees.
+func (e *absEngine) errCaseSplit(fr *frame, b *ssa.BasicBlock, ifi *ssa.If, truth bool) (*nst, bool) {
+	c := normCond(Cond{V: ifi.Cond, True: truth})
+	bo, ok := c.V.(*ssa.BinOp)
+	if !ok || (bo.Op != token.EQL && bo.Op != token.NEQ) {
+		return nil, false
+	}
+	var other ssa.Value
+	switch {
+	case isNilConst(bo.Y):
+		other = bo.X
+	case isNilConst(bo.X):
+		other = bo.Y
+	default:
+		return nil, false
+	}
+	ex, ok := stripConv(other).(*ssa.Extract)
+	if !ok {
+		return nil, false
+	}
+	call, ok := ex.Tuple.(*ssa.Call)
+	if !ok || call.Block() != b || ex.Index != call.Call.Signature().Results().Len()-1 {
+		return nil, false
+	}
+	cases, ok := e.retCases[fr.ctx+":"+call.Name()]
+	if !ok || len(cases) == 0 {
+		return nil, false
+	}
+	// nothing but extraction between the call and the branch
+	after := false
+	var replay []ssa.Instruction
+	for _, in := range b.Instrs {
+		if in == ssa.Instruction(call) {
+			after = true
+			continue
+		}
+		if !after {
+			continue
+		}
+		switch in.(type) {
+		case *ssa.Extract, *ssa.BinOp, *ssa.ChangeType, *ssa.Convert, *ssa.ChangeInterface, *ssa.MakeInterface, *ssa.DebugRef, *ssa.If:
+			replay = append(replay, in)
+		default:
+			return nil, false
+		}
+	}
+	wantNil := (bo.Op == token.EQL) == c.True
+	var out *nst
+	for _, cs := range cases {
+		if cs.errNil == 1 && !wantNil || cs.errNil == 0 && wantNil {
+			continue
+		}
+		if out == nil {
+			out = cs.st.clone()
+		} else {
+			out = joinNst(out, cs.st.clone(), false)
+		}
+	}
+	if out == nil {
+		return nil, true
+	}
+	for _, in := range replay {
+		if _, isIf := in.(*ssa.If); isIf {
+			continue
+		}
+		e.step(fr, out, in)
+	}
+	return out, true
 }
